@@ -2,7 +2,11 @@
 package main
 
 import (
+	"bytes"
+	"crypto/sha1"
+	"encoding/hex"
 	"encoding/json"
+	"go/printer"
 	"fmt"
 	"go/ast"
 	"go/types"
@@ -24,6 +28,9 @@ func main() {
 		Line int    `json:"line"`
 		Func string `json:"func"`
 		Expr string `json:"expr"`
+		// digest of the loop as written (header and body, comments excluded): the reason why the order of a loop is not
+		// observable is a statement about what the loop does
+		Digest string `json:"digest"`
 	}
 	sites := []site{}
 	for _, p := range pkgs {
@@ -38,7 +45,10 @@ func main() {
 						if _, ok := t.Underlying().(*types.Map); ok {
 							pos := p.Fset.Position(r.Pos())
 							rel, _ := filepath.Rel(os.Args[1], pos.Filename)
-							sites = append(sites, site{rel, pos.Line, fn, types.ExprString(r.X)})
+							var buf bytes.Buffer
+							printer.Fprint(&buf, p.Fset, r)
+							sum := sha1.Sum(buf.Bytes())
+							sites = append(sites, site{rel, pos.Line, fn, types.ExprString(r.X), hex.EncodeToString(sum[:])[:16]})
 						}
 					}
 				}
